@@ -9,7 +9,10 @@ import (
 	"sort"
 	"strings"
 	"sync"
+	"time"
 
+	"google.golang.org/grpc/codes"
+	"google.golang.org/grpc/status"
 	"google.golang.org/protobuf/proto"
 
 	"github.com/smart-core-os/sc-api/go/types"
@@ -262,6 +265,74 @@ func mixedBody(name string, n int, stalledFirst bool) func() {
 	}
 }
 
+// ---- harness B3: a backpressure subscriber that is slow but well within the send timeout (one receive every
+// three seconds of virtual time; virtual timers fire in deadline order and only when nothing else can move, so
+// computation takes no time), and writers that overlap: one write first, two more at once. Each send on its own
+// waits three seconds at most, however long its writer queued behind the others, so no write may fail with the
+// send timeout and every committed value reaches the subscriber, in commit order. (A writer that loses the
+// optimistic race comes back Aborted; that is not a delivery failure.)
+func sleepVirtual(d time.Duration) {
+	c, cancel := context.WithTimeout(context.Background(), d)
+	<-c.Done()
+	cancel()
+}
+
+func pacedBody(name string, writers int) func() {
+	return func() {
+		val := resource.NewValue(resource.WithInitialValue(msg(0)))
+		ctx, cancel := context.WithCancel(context.Background())
+		defer cancel()
+		ch := val.Pull(ctx, resource.WithBackpressure(true), resource.WithUpdatesOnly(true))
+		var received []string
+		go func() {
+			for {
+				sleepVirtual(3 * time.Second)
+				c, ok := <-ch
+				if !ok {
+					return
+				}
+				received = append(received, show(c.Value))
+			}
+		}()
+		var okVals, werr []string
+		set := func(k int) {
+			_, err := val.Set(msg(k))
+			switch {
+			case err == nil:
+				okVals = append(okVals, show(msg(k)))
+			case status.Code(err) == codes.Aborted:
+			default:
+				werr = append(werr, fmt.Sprintf("Set(%d): %v", k, err))
+			}
+		}
+		set(1)
+		var wg sync.WaitGroup
+		for k := 2; k <= writers; k++ {
+			k := k
+			wg.Add(1)
+			go func() { defer wg.Done(); set(k) }()
+		}
+		wg.Wait()
+		sleepVirtual(time.Hour)
+		final := show(val.Get())
+		cancel()
+		verifrt.WaitIdle()
+		if len(werr) > 0 {
+			verifrt.Logf("FAIL paced-write-error %s ## the subscriber receives every 3s, each send alone waits at most 3s of its 5s: %v; received %v", name, werr, received)
+		}
+		if len(received) == 0 || received[len(received)-1] != final {
+			verifrt.Logf("FAIL paced-last-value %s ## received %v, store holds %s (write errors %v)", name, received, final, werr)
+		}
+		got := append([]string(nil), received...)
+		sort.Strings(got)
+		sort.Strings(okVals)
+		if strings.Join(got, ",") != strings.Join(okVals, ",") {
+			verifrt.Logf("FAIL paced-dropped %s ## writes that succeeded: %v, received (sorted): %v", name, okVals, got)
+		}
+		verifrt.Logf("OUT received=%v errs=%d", received, len(werr))
+	}
+}
+
 // ---- harness D: the excess components alone
 func componentBody(name string, seq []ev, merge bool, closeAfter bool) func() {
 	return func() {
@@ -442,6 +513,10 @@ func main() {
 			}
 			h.Sched(name, q, -1, valueBody(name, n, true, late), hx.StdOracle)
 		}
+	}
+	for w := 2; w <= 3; w++ {
+		name := fmt.Sprintf("value-backpressure/paced-subscriber(3s)/1+%d-overlapping-writers", w-1)
+		h.Sched(name, -1, -1, pacedBody(name, w), hx.StdOracle)
 	}
 	for _, first := range []bool{true, false} {
 		for n := 1; n <= 2; n++ {
